@@ -55,6 +55,7 @@ var tvMenuFull = []tvForm{
 	{"xs", "xs"}, {"nxs", "nxs"}, {"arr", "arr"}, {"parr", "parr"}, {"m", "m"}, {"nm", "nm"}, {"fxs", "fxs()"},
 	{"f", "f"}, {"nf", "nf"}, {"t", "t"}, {"pt", "pt"}, {"sti", "st.i"}, {"sts", "st.s"}, {"tmp", "tmp"}, {"ok", "ok"}, {"nil", "nil"},
 	// operands of library types (writers, buffers, a compiled regexp, a wait group, a sync.Map)
+	{"pst", "pst"},
 	{"w", "w"}, {"buf", "buf"}, {"pbuf", "pbuf"}, {"sbld", "sbld"}, {"re", "re"}, {"wg", "wg"}, {"smap", "smap"},
 }
 
@@ -124,6 +125,7 @@ var (
 	pt     *time.Time
 	ok     bool
 	st     ST
+	pst    *ST
 	gsxSnk interface{}
 )
 
@@ -454,6 +456,20 @@ func tvInstantiate(r *irRule, ridx int, pat string, quick bool, withPkgVar bool)
 	return out
 }
 
+// tvHandWritten: hand-written rewriting checkers judged through the same pipeline; their
+// "patterns" are the code shapes they rewrite, the suggestion is quoted in the message.
+var tvHandWritten = []irRule{
+	{Group: "newDeref", Report: "replace `$$` with `$zv`", Line: 0, Patterns: []string{
+		"*new(int)", "*new(string)", "*new(bool)", "*new(float64)", "*new(uint8)", "*new(NS)", "*new(NF)", "*new([]int)", "*new(NXS)", "*new(NB)",
+		"*new(map[int]int)", "*new([]byte)", "*new(*int)", "*new(ST)", "*new([3]int)", "*new(time.Time)", "*new(error)", "*new(func())", "*new((int))", "*new(rune)", "*new(*ST)"}},
+	{Group: "underef", Report: "could simplify $$ to $x", Line: 0, Patterns: []string{"(*pst).i", "(*pst).s", "(*parr)[$i]", "(*$p).i"}},
+}
+
+var tvHandWrittenSugg = map[string]*regexp.Regexp{
+	"newDeref": regexp.MustCompile("(?s)^replace `.*` with `(.*)`$"),
+	"underef":  regexp.MustCompile("(?s)^could simplify .* to (.*)$"),
+}
+
 type tvWarning struct {
 	Pos, Text string
 	From, To  int
@@ -484,6 +500,15 @@ var tvEquivGroups = map[string]*regexp.Regexp{
 
 func tvClaimsOf(prop string, r *irRule) []tvClaim {
 	var out []tvClaim
+	if re, ok := tvHandWrittenSugg[r.Group]; ok {
+		switch prop {
+		case "C10":
+			return []tvClaim{{Kind: "equiv", SugRE: re}}
+		case "C09":
+			return []tvClaim{{Kind: "welltyped", SugRE: re}}
+		}
+		return nil
+	}
 	switch prop {
 	case "C10":
 		re, ok := tvEquivGroups[r.Group]
@@ -974,6 +999,9 @@ func runRuleTV(prop string) func(rc *runCtx, ev *evidence) (int, bool) {
 			fmt.Println("BROKEN: cannot dump the rule IR:", err)
 			ev.Broken = append(ev.Broken, err.Error())
 			return 0, true
+		}
+		if prop == "C10" || prop == "C09" {
+			rules = append(rules, tvHandWritten...)
 		}
 		quick := rc.tier != "thorough"
 		st := &tvStats{NotEncodedWhy: map[string]int{}, PerGroup: map[string]map[string]int{}, Fixed: map[string][]tvFixedSrc{}}
